@@ -69,6 +69,7 @@ def known_match(kf, pid, ob):
         if k in kf and kf[k] != ob.get(k): return False
     if 'clause_contains' in kf and kf['clause_contains'] not in (ob.get('clause') or ''): return False
     if 'clause_startswith' in kf and not (ob.get('clause') or '').startswith(kf['clause_startswith']): return False
+    if 'message_startswith' in kf and not (ob.get('message') or '').startswith(kf['message_startswith']): return False
     if 'site_contains' in kf and kf['site_contains'] not in (ob.get('site') or ''): return False
     return True
 
@@ -529,12 +530,24 @@ def main():
               'clause': e.get('desc', ''), 'site': '', 'message': str(res.get('reason', ''))}
         ob['id'] = f"{pid}.native.{e['name']}"
         if res['status'] == 'violation':
-            kf = next((k for k in known if known_match(k, pid, ob)), None)
-            if kf: known_hits.append((kf, ob))
+            fl = (res.get('info') or {}).get('failures')
+            if fl:
+                # one obligation per distinct kind of failure, matched against known findings one by one
+                for ftxt in fl:
+                    ob2 = dict(ob); ob2['message'] = ftxt; ob2['clause'] = ftxt
+                    ob2['id'] = f"{pid}.native.{e['name']}[{ftxt.split(';')[0][:90]}]"
+                    kf = next((k for k in known if known_match(k, pid, ob2)), None)
+                    if kf: known_hits.append((kf, ob2))
+                    else:
+                        ob2['witness'] = ftxt; ob2['native_out'] = ftxt
+                        violations.append(ob2)
             else:
-                ob['witness'] = (res.get('info') or {}).get('witness')
-                ob['native_out'] = res.get('out', '')
-                violations.append(ob)
+                kf = next((k for k in known if known_match(k, pid, ob)), None)
+                if kf: known_hits.append((kf, ob))
+                else:
+                    ob['witness'] = (res.get('info') or {}).get('witness')
+                    ob['native_out'] = res.get('out', '')
+                    violations.append(ob)
         elif res['status'] == 'undecided':
             undecided.append({'engine': 'native', 'harness': e['name'], 'reason': res.get('reason')})
 
